@@ -94,3 +94,18 @@ M("c07-zerodm-weights", "C07", B, "        chanwts = bpass / bpass.sum()", "    
 M("c07-subband-zero-once", "C07", B, "            out_ar.fill(0)\n", "            if _ii == 0:\n                out_ar.fill(0)\n")
 M("c07-samps-tail", "C07", B, "        for _, _, data in self.read_plan(\n            gulp=gulp,\n            start=start,\n            nsamps=nsamps,\n            **plan_kwargs,\n        ):\n            out_file.cwrite(data)\n        out_file.close()\n        return outfile_name\n\n    def extract_chans(",
   "        for _, _, data in self.read_plan(\n            gulp=gulp,\n            start=start,\n            nsamps=nsamps - (nsamps % gulp == 1 and nsamps > gulp),\n            **plan_kwargs,\n        ):\n            out_file.cwrite(data)\n        out_file.close()\n        return outfile_name\n\n    def extract_chans(", "extract_samps drops a one-sample last block")
+
+# ---- C08
+BL = "sigpyproc/block.py"
+M("c08-read_block-tstart", "C08", R, "        start_mjd = self.header.mjd_after_nsamps(start)\n        new_header = self.header.new_header(\n            {\n                \"tstart\": start_mjd,\n                \"nsamples\": nsamps_read,",
+  "        start_mjd = self.header.mjd_after_nsamps(start - (start > 2))\n        new_header = self.header.new_header(\n            {\n                \"tstart\": start_mjd,\n                \"nsamples\": nsamps_read,", "tstart one sample early for start>2")
+M("c08-mjd-seconds-truncated", "C08", H, '        new_time = self.obs_time + TimeDelta(nsamps * self.tsamp, format="sec")', '        new_time = self.obs_time + TimeDelta(round(nsamps * self.tsamp, 2), format="sec")')
+M("c08-downsample-foff", "C08", B, '            "foff": self.header.foff * ffactor,\n            "tstart"', '            "foff": self.header.foff,\n            "tstart"')
+M("c08-invert-fch1", "C08", B, '            "fch1": self.header.fch1 + (self.header.nchans - 1) * self.header.foff,', '            "fch1": self.header.fch1 + self.header.nchans * self.header.foff,')
+M("c08-block-downsample-tsamp", "C08", BL, '            "tsamp": self.header.tsamp * tfactor,\n            "foff": self.header.foff * ffactor,', '            "tsamp": self.header.tsamp * ffactor,\n            "foff": self.header.foff * ffactor,')
+M("c08-bands-fch1", "C08", B, "        fstart = self.header.fch1 + chanstart * self.header.foff", "        fstart = self.header.fch1 + (chanstart // 2 * 2) * self.header.foff", "odd chanstart labelled one channel too high")
+M("c08-get_tim-dm", "C08", BL, "        return TimeSeries(ts, self.header.dedispersed_header(dm=self.dm))", "        return TimeSeries(ts, self.header.dedispersed_header(dm=self.header.dm))")
+M("c08-select-truncates", "C08", R, "        chan_start = round(float((fch1 - self.header.fch1) / self.header.foff))", "        chan_start = int(float((fch1 - self.header.fch1) / self.header.foff))", "original F08b (both readers)", count=2)
+M("c08-dedisperse-tstart", "C08", B, '                    "dm": dm,\n                    "nsamples": tim_len,\n                    "tstart": self.header.mjd_after_nsamps(start),', '                    "dm": dm,\n                    "nsamples": tim_len,\n                    "tstart": self.header.tstart,')
+M("c08-subband-fch1", "C08", B, "        new_fch1 = self.header.ftop + new_foff / 2", "        new_fch1 = self.header.fch1 + new_foff / 2", "sub-band centre off by half an input channel... outside span only for subfactor 1")
+M("c08-chans-fch1", "C08", B, '                                "fch1": self.header.fch1 + int(chan) * self.header.foff,', '                                "fch1": self.header.fch1 + int(batch_chans[0]) * self.header.foff,', "all files of a batch labelled with the first channel of the batch")
